@@ -389,13 +389,39 @@ theorem valid_scalar_dropTop (defs : Spec.Defs) (s : Schema) (j : Json) (T : Str
   | num q => simp [Spec.valid, dropTop, node_mk', hr, ht, h1, h2, h3, h4, Spec.validAll, hty, hm, boundsOK_none, Spec.multipleOK]
   | str t => simp [Spec.valid, dropTop, node_mk', hr, ht, h1, h2, h3, h4, Spec.validAll, hty, hf, lengthOK_zero, patternOK_empty, Spec.formatOK]
 
-theorem certCov_node (env : Env) (f : Nat) (ty : GoTy) (s : Schema) (h : certCov env f ty s = true) :
-    s.node.ref = "" ∧ s.node.multipleOf = none ∧ s.node.format = "" := by
+theorem certCov_node (env : Env) (defs : Spec.Defs) (f : Nat) (ty : GoTy) (s : Schema) (hr : s.node.ref = "")
+    (h : certCov env defs f ty s = true) : s.node.multipleOf = none ∧ s.node.format = "" := by
   cases f with
   | zero => simp [certCov] at h
   | succ f =>
-    simp only [certCov, Bool.and_eq_true, beq_iff_eq, Option.isNone_iff_eq_none] at h
-    exact ⟨h.1.1.1, h.1.1.2, h.1.2⟩
+    simp only [certCov, hr, ne_eq, not_true_eq_false, ↓reduceIte, Bool.and_eq_true, beq_iff_eq, Option.isNone_iff_eq_none] at h
+    exact ⟨h.1.1, h.1.2⟩
+
+/-- a reference node is valid exactly when its target is: its own (ignored) siblings do not matter -/
+theorem valid_dropTop_ref (defs : Spec.Defs) (s : Schema) (j : Json) (F : Nat) (hr : s.node.ref ≠ "") :
+    Spec.valid F defs (dropTop s) j = Spec.valid F defs s j := by
+  obtain ⟨n⟩ := s
+  simp only [node_mk'] at hr
+  cases F with
+  | zero => simp [Spec.valid]
+  | succ F => cases j <;> simp [Spec.valid, dropTop, node_mk', hr]
+
+/-- no schema certifies an `interface{}` position -/
+theorem certAll_iface (env : Env) (defs : Spec.Defs) : ∀ f s, certAll env defs f .iface s = false := by
+  intro f
+  induction f with
+  | zero => intro s; simp [certAll]
+  | succ f ih =>
+    intro s
+    simp only [certAll]
+    split
+    · cases Spec.refName s.node.ref with
+      | none => rfl
+      | some name =>
+        cases hl : alookup name defs with
+        | none => simp [hl]
+        | some t => simp [hl, ih t]
+    · rfl
 
 /-- **C02–C07, whole documents, SOUNDNESS of acceptance**: for a program both certificates admit (`certAll`: every
     validator is what the schema states; `certCov`: every stated constraint has its validator, and nothing outside the
@@ -404,17 +430,38 @@ theorem certCov_node (env : Env) (f : Nat) (ty : GoTy) (s : Schema) (h : certCov
     patterns, array item counts.  (Stated for the node without its own top-level constraints, which its parent checks;
     `certified_exact` below closes it for object roots.) -/
 theorem certSound (env : Env) (defs : Spec.Defs) :
-    ∀ (f : Nat) (ty : GoTy) (s : Schema), certAll env defs f ty s = true → certCov env f ty s = true →
+    ∀ (f : Nat) (ty : GoTy) (s : Schema), certAll env defs f ty s = true → certCov env defs f ty s = true →
       ∀ (j : Json), Acc .json env ty j → DocClean env j → ∃ F, Spec.valid F defs (dropTop s) j = true := by
   intro f
   induction f with
   | zero => intro ty s h; simp [certAll] at h
   | succ f ih =>
     intro ty s hc hcov j hacc hclean
-    obtain ⟨hr, hmS, hfS⟩ := certCov_node env _ ty s hcov
+    by_cases hr : s.node.ref = ""
+    case neg =>
+      -- a reference: the target is an inline node without scalar constraints of its own
+      simp only [certAll, ne_eq, hr, not_false_eq_true, ↓reduceIte] at hc
+      simp only [certCov, ne_eq, hr, not_false_eq_true, ↓reduceIte] at hcov
+      cases hn : Spec.refName s.node.ref with
+      | none => simp [hn] at hc
+      | some name =>
+        simp only [hn] at hc hcov
+        cases hl : alookup name defs with
+        | none => simp [hl] at hc
+        | some t =>
+          simp only [hl, Bool.and_eq_true, beq_iff_eq] at hc hcov
+          obtain ⟨⟨hrT, htf⟩, hcT⟩ := hcov
+          obtain ⟨F, hF⟩ := ih ty t hc hcT j hacc hclean
+          obtain ⟨hmT, hfT⟩ := certCov_node env defs f ty t hrT hcT
+          have hvt : Spec.valid F defs t j = true := by
+            rw [valid_split defs t j F hrT hmT hfT, hF, topOK_of_topFree t j htf]; rfl
+          refine ⟨F + 1, ?_⟩
+          rw [valid_dropTop_ref defs s j (F + 1) hr]
+          cases j <;> simp [Spec.valid, hr, hn, hl, hvt]
+    obtain ⟨hmS, hfS⟩ := certCov_node env defs _ ty s hr hcov
     have hjnn : j ≠ .null := fun e => hclean.nonull (e ▸ .here)
     simp only [certAll, hr, ne_eq, not_true_eq_false, ↓reduceIte] at hc
-    simp only [certCov, hr, hmS, hfS, beq_self_eq_true, Option.isNone_none, Bool.and_self, Bool.true_and] at hcov
+    simp only [certCov, hr, ne_eq, not_true_eq_false, ↓reduceIte, hmS, hfS, beq_self_eq_true, Option.isNone_none, Bool.and_self, Bool.true_and] at hcov
     cases ty with
     | ptr t =>
       rcases (acc_ptr_iff env t j).mp hacc with e | h
@@ -450,18 +497,19 @@ theorem certSound (env : Env) (defs : Spec.Defs) :
         have hb : t ≠ .int .u8 := by intro e; subst e; simp at htn
         have hi : t ≠ .iface := by
           intro e; subst e
-          obtain ⟨hrI, _, _⟩ := certCov_node env f .iface it hcovIt.2
-          cases f <;> simp [certAll, hrI] at hit
+          rw [certAll_iface] at hit; cases hit
         obtain ⟨g, v, hd⟩ := hacc
         rcases decode_slice_arr env t j g v hn hb hi hd with e | ⟨xs, rfl⟩
         · exact absurd e hjnn
         · have helems := (acc_slice_iff env t xs hn hb).mp ⟨g, v, hd⟩
-          obtain ⟨hrI, hmI, hfI⟩ := certCov_node env f t it hcovIt.2
           have hvalid : ∀ x ∈ xs, ∃ F, Spec.valid F defs it x = true := by
             intro x hx
             obtain ⟨F, hF⟩ := ih t it hit hcovIt.2 x (helems x hx) (hclean.ofElem x hx)
             refine ⟨F, ?_⟩
-            rw [valid_split defs it x F hrI hmI hfI, hF, topOK_of_topFree it x hcovIt.1]; rfl
+            by_cases hrI : it.node.ref = ""
+            · obtain ⟨hmI, hfI⟩ := certCov_node env defs f t it hrI hcovIt.2
+              rw [valid_split defs it x F hrI hmI hfI, hF, topOK_of_topFree it x hcovIt.1]; rfl
+            · rw [← valid_dropTop_ref defs it x F hrI]; exact hF
           obtain ⟨G, hG⟩ := common_valid_elems defs it xs hvalid
           have hve := validElems_of_all defs it G xs hG
           refine ⟨(G + xs.length + 1) + 1, ?_⟩
@@ -578,7 +626,7 @@ theorem certSound (env : Env) (defs : Spec.Defs) :
             -- what the certificates say about one declared property
             have hprop : ∀ k ps, alookup k s.node.props = some ps →
                 ∃ fld, bindKey fs k = some fld ∧ fld.jsonKey = k ∧ certAll env defs f fld.ty ps = true ∧
-                  topCovered vs fld.name ps = true ∧ certCov env f fld.ty ps = true := by
+                  topCovered vs fld.name ps = true ∧ certCov env defs f fld.ty ps = true := by
               intro k ps hl
               have hmem := alookup_mem k ps s.node.props hl
               have hp' := hprops (k, ps) hmem
@@ -620,8 +668,10 @@ theorem certSound (env : Env) (defs : Spec.Defs) :
               obtain ⟨fld, hb, hk, hcA, htc, hcC⟩ := hprop p.1 ps hl
               have haccE : Acc .json env fld.ty p.2 := hentriesAcc p hp fld hb
               obtain ⟨F1, hF1⟩ := ih fld.ty ps hcA hcC p.2 haccE (hclean.ofMember p hp)
-              obtain ⟨hrP, hmP, hfP⟩ := certCov_node env f fld.ty ps hcC
               refine ⟨F1, ?_⟩
+              by_cases hrP : ps.node.ref = ""
+              case neg => rw [← valid_dropTop_ref defs ps p.2 F1 hrP]; exact hF1
+              obtain ⟨hmP, hfP⟩ := certCov_node env defs f fld.ty ps hrP hcC
               rw [valid_split defs ps p.2 F1 hrP hmP hfP, hF1, Bool.true_and]
               obtain ⟨v, g, hlv, hd⟩ := hval p hp fld hb hk
               have hfldmem := mem_of_bindKey fs p.1 fld hb
@@ -755,19 +805,43 @@ theorem certSound (env : Env) (defs : Spec.Defs) :
     schema — whole documents, every size and nesting depth; types, required keys, numeric bounds, string length limits
     and patterns, array item counts. -/
 theorem certified_exact (env : Env) (defs : Spec.Defs) (f : Nat) (ty : GoTy) (s : Schema)
-    (hA : certAll env defs f ty s = true) (hC : certCov env f ty s = true) (htop : topFree s = true)
+    (hA : certAll env defs f ty s = true) (hC : certCov env defs f ty s = true)
+    (hroot : s.node.ref = "") (htop : topFree s = true)
     (j : Json) (hclean : DocClean env j) :
     Acc .json env ty j ↔ ∃ F, Spec.valid F defs s j = true := by
   constructor
   · intro hacc
     obtain ⟨F, hF⟩ := certSound env defs f ty s hA hC j hacc hclean
-    obtain ⟨hr, hm, hf⟩ := certCov_node env f ty s hC
-    exact ⟨F, by rw [valid_split defs s j F hr hm hf, hF, topOK_of_topFree s j htop]; rfl⟩
+    obtain ⟨hm, hf⟩ := certCov_node env defs f ty s hroot hC
+    exact ⟨F, by rw [valid_split defs s j F hroot hm hf, hF, topOK_of_topFree s j htop]; rfl⟩
   · rintro ⟨F, hF⟩
     exact certAll_accepts env defs f ty s hA F j hF hclean.oks
 
 /-- both certificates admit ordinary generated programs (non-vacuity of `certified_exact`) -/
-example : certAll exEnvA [] 4 (.named "Root") exSchemaA = true ∧ certCov exEnvA 4 (.named "Root") exSchemaA = true ∧
+example : certAll exEnvA [] 4 (.named "Root") exSchemaA = true ∧ certCov exEnvA [] 4 (.named "Root") exSchemaA = true ∧
     topFree exSchemaA = true := by decide
+
+/-- … and programs whose properties are references to object definitions -/
+def exEnvR : Env := [
+  { name := "Root", ty := .strct [
+      { name := "Owner", jsonName := "owner", ty := .named "Person", tags := "", jsonKey := "owner", yamlKey := "owner", omitEmpty := false },
+      { name := "Backup", jsonName := "backup", ty := .ptr (.named "Person"), tags := "", jsonKey := "backup", yamlKey := "backup", omitEmpty := true }],
+    body := .plain [.required "owner"] true },
+  { name := "Person", ty := .strct [
+      { name := "Name", jsonName := "name", ty := .string, tags := "", jsonKey := "name", yamlKey := "name", omitEmpty := false },
+      { name := "Age", jsonName := "age", ty := .ptr (.int .int), tags := "", jsonKey := "age", yamlKey := "age", omitEmpty := true }],
+    body := .plain [.required "name", .numeric "Age" true { lo := some 0, hi := none, roundToInt := true }] true }]
+
+def exDefsR : Spec.Defs := [("Person", .mk { types := ["object"], required := ["name"], props := [
+  ("name", .mk { types := ["string"] }),
+  ("age", .mk { types := ["integer"], minimum := some 0 })] })]
+
+def exSchemaR : Schema := .mk { types := ["object"], required := ["owner"], props := [
+  ("owner", .mk { ref := "#/definitions/Person" }),
+  ("backup", .mk { ref := "#/definitions/Person" })] }
+
+
+example : certAll exEnvR exDefsR 6 (.named "Root") exSchemaR = true ∧
+    certCov exEnvR exDefsR 6 (.named "Root") exSchemaR = true ∧ topFree exSchemaR = true := by decide +kernel
 
 end GJS.Props.C02
